@@ -1,5 +1,6 @@
 import L21.Props.C11
 import L21.Props.C11P
+import L21.Props.C11S
 #print axioms L21.LefLex.c11_tokens_are_substrings
 #print axioms L21.LefLex.c11_token_bounds
 #print axioms L21.LefLex.c11_lex_total
@@ -7,3 +8,8 @@ import L21.Props.C11P
 #print axioms L21.Lef.c11_inner_loops_fuel
 #print axioms L21.Lef.c11_every_construct_consumes
 #print axioms L21.Lef.c11_parse_total
+#print axioms L21.LefLex.c11_state_lexer_same_tokens
+#print axioms L21.LefLex.c11_linestart_is_boundary
+#print axioms L21.LefLex.c11_error_report_never_panics
+#print axioms L21.LefLex.c11_reports_total
+#print axioms L21.LefLex.c11_error_line_bounded
